@@ -176,4 +176,5 @@ def main(tier, replay=None):
     chk.assumptions += ["operands are distinct objects from the target (concat/assign of a String with itself is not generated)",
                         "formatted writes use positions within the string"]
     camp.report()
+    runner.run_pinned(chk, {})          # open findings of this property: listed, identified by the input each entry describes
     return chk.finish()
